@@ -162,6 +162,9 @@ def run():
         hists2 = hc.gen_behaviours(sc, "HeapGenBig.cfg", num=n, depth=260, seed=chk.seed + 8)
         a = hc.micro_campaign(chk, sc, build, hists[:3000], 12, 36, "c02a")
         a += hc.micro_campaign(chk, sc, build, hists2[:3000], 6, 96, "c02b")
+        chains = hc.chain_scripts()
+        chk.rng.shuffle(chains)
+        a += hc.micro_campaign(chk, sc, build, chains[:len(chains) if chk.thorough else 60], 8, 64, "chain", batch=90)
         chk.cov["micro_behaviours"] = a
         # ---- schedule sweep on real programs
         progs = sorted(glob.glob(os.path.join(PROGS, "p*.scm")))
